@@ -65,3 +65,86 @@ package scheduler
 //@        (exists j int :: 0 <= j && j <= idx &&
 //@             (old(cancel_blocker(g.dict[g.to[node.id][j]])) || old(skip_blocker(g.dict[g.to[node.id][j]]))))
 //@        ==> node.data.State.Status != NodeStatusNone
+
+// ---------------------------------------------------------------------------------------------
+// Status vector abstractions
+
+//@ sfunc status_at(g *ExecutionGraph, i int) NodeStatus = g.nodes[i].data.State.Status
+//@
+//@ sfunc count_running(g *ExecutionGraph, n int) int rec =
+//@      ite(n <= 0, 0, count_running(g, n - 1) + ite(status_at(g, n - 1) == NodeStatusRunning, 1, 0))
+//@
+//@ pred nodes_wf(g *ExecutionGraph) = forall i int :: 0 <= i && i < len(g.nodes) ==> g.nodes[i] != nil
+//@ pred any_running(g *ExecutionGraph) = exists i int :: 0 <= i && i < len(g.nodes) && status_at(g, i) == NodeStatusRunning
+//@ pred all_done_ok(g *ExecutionGraph) = forall i int :: 0 <= i && i < len(g.nodes) ==>
+//@      (status_at(g, i) == NodeStatusSuccess || status_at(g, i) == NodeStatusSkipped)
+//@ pred all_finished(g *ExecutionGraph) = forall i int :: 0 <= i && i < len(g.nodes) ==>
+//@      (status_at(g, i) != NodeStatusRunning && status_at(g, i) != NodeStatusNone)
+
+//@ fn (*ExecutionGraph).Nodes(g) (r)
+//@   props C01 C02 C03 C04 C05 C15
+//@   ensures r == g.nodes
+
+//@ fn (*ExecutionGraph).IsStarted(g) (r)
+//@   props C04
+//@   ensures r <==> g.startedAt != 0
+
+//@ fn (*ExecutionGraph).IsRunning(g) (r)
+//@   props C04 C05
+//@   safety
+//@   requires nodes_wf(g)
+//@   ensures [C04 is_running] r <==> any_running(g)
+//@   loop 0 invariant forall i int :: 0 <= i && i <= idx ==> status_at(g, i) != NodeStatusRunning
+
+//@ fn (*Scheduler).isCanceled(sc) (r)
+//@   props C04 C05 C01
+//@   ensures r <==> sc.canceled == 1
+
+//@ fn (*Scheduler).setCanceled(sc)
+//@   props C05
+//@   modifies sc.canceled
+//@   ensures sc.canceled == 1
+
+//@ fn (*Scheduler).isError(sc) (r)
+//@   props C04
+//@   ensures r <==> sc.lastError != nil
+
+//@ fn (*Scheduler).setLastError(sc, err)
+//@   props C04
+//@   modifies sc.lastError
+//@   ensures sc.lastError == err
+
+//@ fn (*Scheduler).isSucceed(sc, g) (r)
+//@   props C04
+//@   safety
+//@   requires nodes_wf(g)
+//@   ensures [C04 is_succeed] r <==> all_done_ok(g)
+//@   loop 0 invariant forall i int :: 0 <= i && i <= idx ==>
+//@        (status_at(g, i) == NodeStatusSuccess || status_at(g, i) == NodeStatusSkipped)
+
+//@ fn (*Scheduler).isFinished(sc, g) (r)
+//@   props C02 C04
+//@   safety
+//@   requires nodes_wf(g)
+//@   ensures [C02 is_finished] r <==> all_finished(g)
+//@   loop 0 invariant forall i int :: 0 <= i && i <= idx ==>
+//@        (status_at(g, i) != NodeStatusRunning && status_at(g, i) != NodeStatusNone)
+
+//@ fn (*Scheduler).runningCount(sc, g) (r)
+//@   props C15
+//@   safety
+//@   requires nodes_wf(g)
+//@   ensures [C15 counts_running] r == count_running(g, len(g.nodes))
+//@   loop 0 invariant count == count_running(g, idx + 1)
+
+// The run outcome as a total function of (cancel flag, started, node states, last error) — C04.
+//@ sfunc spec_status(canceled bool, allok bool, started bool, running bool, iserr bool) Status =
+//@      ite(canceled && !allok, StatusCancel,
+//@      ite(!started, StatusNone,
+//@      ite(running, StatusRunning,
+//@      ite(iserr, StatusError, StatusSuccess))))
+
+//@ fn (*Scheduler).Status(sc, g) (s)
+//@   props C04
+//@   requires nodes_wf(g)
+//@   ensures [C04 spec_status] s == spec_status(sc.canceled == 1, all_done_ok(g), g.startedAt != 0, any_running(g), sc.lastError != nil)
